@@ -169,17 +169,18 @@ def _base_points():
         [(0, 0), (1, 0), (1, 2), (2, 1)],
         [(2, 0), (2, 1), (2, 2), (0, 2), (1, 1)],
     ]
-    for t in tabs:
+    for ti, t in enumerate(tabs):
         n = alpha.table_nbins(t)
-        for sh in shapes:
+        for si, sh in enumerate(shapes):
             if all(i < n and j < n for i, j in sh):
-                pts.append((t, True, sorted(sh)))
-        for sh in sq_shapes:
+                pts.append((ti, si, (t, True, sorted(sh))))
+        for si, sh in enumerate(sq_shapes):
             if all(i < n and j < n for i, j in sh):
-                pts.append((t, False, sorted(sh)))
-    # interleave so that the first 16 already contain every shape class
-    order = sorted(range(len(pts)), key=lambda k: (k % 12, k))
-    return [pts[k] for k in order][:40]
+                pts.append((ti, len(shapes) + si, (t, False, sorted(sh))))
+    # diagonal order over (table, shape) so that any prefix of the list mixes all shape classes and tables:
+    # the first 16 points hold shapes with 0..5 pixels in both storage modes
+    pts.sort(key=lambda x: ((x[1] - 3 * x[0]) % 12, x[0]))
+    return [x[2] for x in pts][:40]
 
 
 def _forms(R, b, only):
